@@ -10,7 +10,7 @@ Line-protocol driver of the C14 model (ByteStream / CAS / AC services and the CA
     dec <hexin> <c|t|x> <hexout>              declare the decoder's behaviour on one input
     write <kind> <hash> <size> <eof|e<code>> <senderr> [; <off> <hex> <fin 0|1>]*
     read <kind> <hash> <size> <off> <limit> <failat>
-    bupd <call> [; <bad> <hash> <size> <hex>]*     call := ok | instance | function
+    bupd <call> [; <bad> <hash> <size> <hex>]*     call := ok | instance | function | digest (+ .variant)
     bread <call> [; <bad> <hash> <size>]*
     fmb <call> [; <bad> <hash> <size>]*
     acput <call> <hash> <size> <hex> | acget <call> <hash> <size>
@@ -128,22 +128,30 @@ def end? (s : String) : Option StreamEnd :=
     | 'e' :: ds => (nat? (String.ofList ds)).map StreamEnd.err
     | _ => none
 
-def call? (s : String) : Option (Option Err) :=
+def call? (s0 : String) : Option (Option Err) :=
+  let s := String.ofList (s0.toList.takeWhile (· != '.'))
   if s == "ok" then some none
   else if s == "instance" then some (some ⟨3, "instance"⟩)
   else if s == "function" then some (some ⟨3, "function"⟩)
+  else if s == "digest" then some (some ⟨3, "digest"⟩)
   else none
 
 def msg? : List String → Option WriteReq
   | [o, h, f] => do pure ⟨← int? o, ← hexBytes? h, ← bool? f⟩
   | _ => none
 
+/-- entries flagged bad carry the malformed digest literally (ignored here) -/
 def upd? : List String → Option UpdEntry
-  | [b, h, sz, x] => do pure ⟨← bool? b, ← digest? h sz, ← hexBytes? x⟩
+  | [b, h, sz, x] => do
+    let b ← bool? b
+    let x ← hexBytes? x
+    if b then pure ⟨true, ⟨[], 0⟩, x⟩ else pure ⟨false, ← digest? h sz, x⟩
   | _ => none
 
 def rd? : List String → Option RdEntry
-  | [b, h, sz] => do pure ⟨← bool? b, ← digest? h sz⟩
+  | [b, h, sz] => do
+    let b ← bool? b
+    if b then pure ⟨true, ⟨[], 0⟩⟩ else pure ⟨false, ← digest? h sz⟩
   | _ => none
 
 def showErr (e : Err) : String := s!"{e.code} {e.tag}"
